@@ -2,7 +2,9 @@ import Gms.Driver.Proto
 import Gms.Model.Range
 import Gms.Model.RangeIO
 import Gms.Model.IndexBuilder
-open Gms.Proto Gms.Range Gms.RangeIO Gms.IndexBuilder
+import Gms.Model.RangeTree
+import Gms.Model.IndexScan
+open Gms.Proto Gms.Range Gms.RangeIO Gms.IndexBuilder Gms.IndexScan
 
 def parseLit : Sexp → Option Lit
   | .list [.atom "i", v] => v.int?.map Lit.int
@@ -50,6 +52,22 @@ def specAgrees (t : IntType) (n : Nat) (ops : List (Nat × Pred)) (rs : List Ran
   else (tuples pts).all (fun v =>
     memAny rs (v.map pt) == ops.all (fun o => o.2.holds ((v[o.1]?).getD none)))
 
+/-- A filter tree: `(and e e)`, `(or e e)` or a leaf predicate. -/
+def parseE : Nat → Sexp → Option E
+  | 0, _ => none
+  | f + 1, .list [.atom "and", a, b] => do pure (E.and (← parseE f a) (← parseE f b))
+  | f + 1, .list [.atom "or", a, b] => do pure (E.or (← parseE f a) (← parseE f b))
+  | _ + 1, s => (parseOp s).map (fun o => E.leaf o.1 o.2)
+
+/-- Run-time check of `Gms.C03.scan_sound_complete` on the model's own output (the Go oracle does
+the same on the real output). -/
+def specAgreesE (t : IntType) (n : Nat) (e : E) (rs : List Range) : Bool :=
+  let pts := (List.range n).map (testPoints t e.leaves)
+  if (pts.map List.length).foldl (· * ·) 1 > 4000 then true
+  else (tuples pts).all (fun v => memAny rs (v.map pt) == e.holds v)
+
+def scanFuel : Nat := 5000
+
 def rtName : RangeType → String
   | .invalid => "Invalid" | .empty => "Empty" | .all => "All" | .greaterThan => "GreaterThan"
   | .greaterOrEqual => "GreaterOrEqual" | .lessThanOrNull => "LessThanOrNull"
@@ -69,6 +87,22 @@ def handle (p : List Sexp) : String :=
       let rs := ranges (build t n ops)
       if specAgrees t n ops rs then answer (showRanges rs)
       else answer (showRanges rs) "members-differ-from-the-conjunction-of-the-predicates"
+    | _, _, _, _ => answer "bad-case"
+  -- the analyzer's filter → range collection path; Impl model over the heap model of the real range tree
+  | [.list [.atom "scan", tmin, tmax, n, e]] =>
+    match tmin.int?, tmax.int?, n.nat?, parseE 64 e with
+    | some tmin, some tmax, some n, some e =>
+      let t : IntType := ⟨tmin, tmax⟩
+      match rootRanges Gms.RangeTree.heapTree scanFuel t n e with
+      | .ok rs =>
+        if rs.isEmpty then answer (showRanges rs) "(a non-nil collection)"
+        else if specAgreesE t n e rs then answer (showRanges rs)
+        else answer (showRanges rs) "members-differ-from-the-filter"
+      -- `RemoveOverlappingRanges` rejecting a well-formed input is C46's listed finding
+      -- (ror_tree_missed_connection); `scan_sound_complete` is about non-error results
+      | .err m => answer (if m == "overlapping ranges" then "err:overlap" else "err:merge") "?"
+      | .crash => answer "crash" "?"
+      | .fuel => answer "timeout" "?"
     | _, _, _, _ => answer "bad-case"
   | [.list [.atom "rtype", r]] =>
     match parseCol r with
